@@ -680,6 +680,14 @@ pub fn c02_export<'a>(cx: &Ctx<'a>, f: &Function, async_: bool, with_post_return
     if with_post_return && !async_ {
         let needs = abi::guest_export_needs_post_return(cx.resolve, f);
         let want_needs = f.result.as_ref().map(|t| spec.has_heap(t)).unwrap_or(false);
+        let params_alloc = abi::guest_export_params_have_allocations(cx.resolve, f);
+        let want_params_alloc = f.params.iter().any(|p| spec.has_heap(&p.ty));
+        if params_alloc != want_params_alloc {
+            structural.push(format!(
+                "guest_export_params_have_allocations = {params_alloc}, but the parameters {} a heap buffer",
+                if want_params_alloc { "contain" } else { "do not contain" }
+            ));
+        }
         if needs != want_needs {
             structural.push(format!(
                 "guest_export_needs_post_return = {needs}, but the result {} a heap buffer",
